@@ -1,1 +1,249 @@
-(* placeholder, being written *)
+(* ------------------------------------------------------------------------- *)
+(*  BS.Codec.ProtoCodec                                                      *)
+(*                                                                           *)
+(*  Executable model of the wire form of the protocol `Message`              *)
+(*  (/repo/src/proto.rs: serde derive, `bincode::serialize` at every send    *)
+(*  site, `bincode::deserialize` at every receive site).  Definitions only;  *)
+(*  proofs are in ProtoCodecProofs.v.  Driven by the GENERATED tables of     *)
+(*  BSGen.ProtoLayout: the variants of `Message` in declaration order        *)
+(*  (= serde variant index; the explicit `= n` discriminants do not reach    *)
+(*  the wire), their fields in order with their wire types, and the layout   *)
+(*  of `SyncConnectionParameters` (lib.rs).                                  *)
+(*                                                                           *)
+(*  Hand-written facts about dependencies (validated by the correspondence   *)
+(*  runs): `Uuid` is 16 bytes behind a u64 length, `String` is its UTF-8     *)
+(*  bytes behind a u64 length (UTF-8 validity is not modelled: the model     *)
+(*  decoder accepts ill-formed strings that the real one rejects), `Vec<u8>` *)
+(*  is a u64 length and the bytes, `IpAddr` is a u32 variant index and the   *)
+(*  4 / 16 octets.                                                           *)
+(* ------------------------------------------------------------------------- *)
+
+From Coq Require Import List NArith Bool.
+From BS Require Import Codec.Schema Codec.CodecTypes.
+From BSGen Require Import ProtoLayout.
+Import ListNotations.
+Local Open Scope N_scope.
+
+Inductive ipaddr := IpV4 (octets : list N) | IpV6 (octets : list N).
+
+(* mirrors `Message` (and the harness' canonical text form); uuids, strings and blobs are byte
+   lists *)
+Inductive msg :=
+| MEntitySpawn (id : list N)
+| MEntityParented (entity_id parent_id : list N)
+| MEntityDelete (id : list N)
+| MComponentUpdated (id name data : list N)
+| MStandardMaterialUpdated (id material : list N)
+| MMeshUpdated (id url : list N)
+| MImageUpdated (id url : list N)
+| MAudioUpdated (id url : list N)
+| MPromoteToHost
+| MNewHost (ip : ipaddr) (port web_port max_transfer : N)
+| MRequestInitialSync
+| MFinishedInitialSync.
+
+Definition msg_kind (m : msg) : mvariant :=
+  match m with
+  | MEntitySpawn _ => K_EntitySpawn
+  | MEntityParented _ _ => K_EntityParented
+  | MEntityDelete _ => K_EntityDelete
+  | MComponentUpdated _ _ _ => K_ComponentUpdated
+  | MStandardMaterialUpdated _ _ => K_StandardMaterialUpdated
+  | MMeshUpdated _ _ => K_MeshUpdated
+  | MImageUpdated _ _ => K_ImageUpdated
+  | MAudioUpdated _ _ => K_AudioUpdated
+  | MPromoteToHost => K_PromoteToHost
+  | MNewHost _ _ _ _ => K_NewHost
+  | MRequestInitialSync => K_RequestInitialSync
+  | MFinishedInitialSync => K_FinishedInitialSync
+  end.
+
+(* ---- values -------------------------------------------------------------------- *)
+
+Definition val_of_blob (b : list N) : val := VSeq (tmap VInt b).      (* Vec<u8> *)
+
+Definition val_of_ip (ip : ipaddr) : val :=
+  match ip with
+  | IpV4 o => VEnum 0 (VArr (tmap VInt o))
+  | IpV6 o => VEnum 1 (VArr (tmap VInt o))
+  end.
+
+Definition sparam_val (ip : ipaddr) (port web_port max_transfer : N) (f : sfield) : val :=
+  match f with
+  | S_ip => val_of_ip ip
+  | S_port => VInt port
+  | S_web_port => VInt web_port
+  | S_max_transfer => VInt max_transfer
+  end.
+
+(* `SyncConnectionParameters::Socket { .. }`: variant 0, fields in declaration order *)
+Definition val_of_params (ip : ipaddr) (port web_port max_transfer : N) : val :=
+  VEnum 0 (VTuple (map (fun ft => sparam_val ip port web_port max_transfer (fst ft)) sync_params_fields)).
+
+(* the value of field [f] of message [m]; [VUnit] (which inhabits no field type) for a field
+   the variant does not have *)
+Definition msg_field (m : msg) (f : pfield) : val :=
+  match m, f with
+  | MEntitySpawn id, P_id => VBytes id
+  | MEntityParented e _, P_entity_id => VBytes e
+  | MEntityParented _ p, P_parent_id => VBytes p
+  | MEntityDelete id, P_id => VBytes id
+  | MComponentUpdated id _ _, P_id => VBytes id
+  | MComponentUpdated _ n _, P_name => VBytes n
+  | MComponentUpdated _ _ d, P_data => val_of_blob d
+  | MStandardMaterialUpdated id _, P_id => VBytes id
+  | MStandardMaterialUpdated _ mat, P_material => val_of_blob mat
+  | MMeshUpdated id _, P_id => VBytes id
+  | MMeshUpdated _ u, P_url => VBytes u
+  | MImageUpdated id _, P_id => VBytes id
+  | MImageUpdated _ u, P_url => VBytes u
+  | MAudioUpdated id _, P_id => VBytes id
+  | MAudioUpdated _ u, P_url => VBytes u
+  | MNewHost ip p w t, P_params => val_of_params ip p w t
+  | _, _ => VUnit
+  end.
+
+(* serde variant index and field list of a variant: its position in the declaration *)
+Fixpoint find_variant (k : mvariant) (l : list (mvariant * list (pfield * ty))) (idx : N)
+  : option (N * list (pfield * ty)) :=
+  match l with
+  | [] => None
+  | (k', fs) :: r => if mvariant_eqb k k' then Some (idx, fs) else find_variant k r (N.succ idx)
+  end.
+
+Fixpoint nth_variant (idx : N) (l : list (mvariant * list (pfield * ty)))
+  : option (mvariant * list (pfield * ty)) :=
+  match l with
+  | [] => None
+  | x :: r => if idx =? 0 then Some x else nth_variant (N.pred idx) r
+  end.
+
+Definition msg_to_val (m : msg) : val :=
+  match find_variant (msg_kind m) message_variants 0 with
+  | Some (idx, fs) =>
+    VEnum idx (match fs with
+               | [] => VUnit
+               | _ => VTuple (map (fun ft => msg_field m (fst ft)) fs)
+               end)
+  | None => VUnit
+  end.
+
+(* `bincode::serialize(&message)`; [None] only for a [msg] that is not a Rust value *)
+Definition encode (m : msg) : option bytes := enc message_ty (msg_to_val m).
+
+(* ---- back ------------------------------------------------------------------------ *)
+
+Definition blob_of_val (v : val) : option (list N) :=
+  match v with
+  | VSeq l => omap (fun x => match x with VInt n => Some n | _ => None end) l
+  | _ => None
+  end.
+
+Definition octets_of_val (v : val) : option (list N) :=
+  match v with
+  | VArr l => omap (fun x => match x with VInt n => Some n | _ => None end) l
+  | _ => None
+  end.
+
+Definition ip_of_val (v : val) : option ipaddr :=
+  match v with
+  | VEnum 0 a => match octets_of_val a with Some o => Some (IpV4 o) | None => None end
+  | VEnum 1 a => match octets_of_val a with Some o => Some (IpV6 o) | None => None end
+  | _ => None
+  end.
+
+Definition penv := list (pfield * val).
+Definition pbytes (e : penv) (f : pfield) : option (list N) :=
+  match assoc pfield_eqb f e with Some (VBytes b) => Some b | _ => None end.
+Definition pblob (e : penv) (f : pfield) : option (list N) :=
+  match assoc pfield_eqb f e with Some v => blob_of_val v | None => None end.
+
+Definition senv := list (sfield * val).
+Definition sint (e : senv) (f : sfield) : option N :=
+  match assoc sfield_eqb f e with Some (VInt n) => Some n | _ => None end.
+
+Definition params_of_val (v : val) : option msg :=
+  match v with
+  | VEnum 0 (VTuple vs) =>
+    let e := combine (map fst sync_params_fields) vs in
+    match assoc sfield_eqb S_ip e with
+    | Some ipv =>
+      match ip_of_val ipv, sint e S_port, sint e S_web_port, sint e S_max_transfer with
+      | Some ip, Some p, Some w, Some t => Some (MNewHost ip p w t)
+      | _, _, _, _ => None
+      end
+    | None => None
+    end
+  | _ => None
+  end.
+
+
+Definition build_msg (k : mvariant) (e : penv) : option msg :=
+  match k with
+  | K_EntitySpawn => id <- pbytes e P_id ;; Some (MEntitySpawn id)
+  | K_EntityParented => a <- pbytes e P_entity_id ;; b <- pbytes e P_parent_id ;; Some (MEntityParented a b)
+  | K_EntityDelete => id <- pbytes e P_id ;; Some (MEntityDelete id)
+  | K_ComponentUpdated =>
+    id <- pbytes e P_id ;; n <- pbytes e P_name ;; d <- pblob e P_data ;; Some (MComponentUpdated id n d)
+  | K_StandardMaterialUpdated =>
+    id <- pbytes e P_id ;; d <- pblob e P_material ;; Some (MStandardMaterialUpdated id d)
+  | K_MeshUpdated => id <- pbytes e P_id ;; u <- pbytes e P_url ;; Some (MMeshUpdated id u)
+  | K_ImageUpdated => id <- pbytes e P_id ;; u <- pbytes e P_url ;; Some (MImageUpdated id u)
+  | K_AudioUpdated => id <- pbytes e P_id ;; u <- pbytes e P_url ;; Some (MAudioUpdated id u)
+  | K_PromoteToHost => Some MPromoteToHost
+  | K_NewHost => v <- assoc pfield_eqb P_params e ;; params_of_val v
+  | K_RequestInitialSync => Some MRequestInitialSync
+  | K_FinishedInitialSync => Some MFinishedInitialSync
+  end.
+
+Definition val_to_msg (v : val) : option msg :=
+  match v with
+  | VEnum idx p =>
+    match nth_variant idx message_variants with
+    | Some (k, fs) =>
+      build_msg k (match p with VTuple vs => combine (map fst fs) vs | _ => [] end)
+    | None => None
+    end
+  | _ => None
+  end.
+
+(* `bincode::deserialize::<Message>(bytes).ok()`: trailing bytes are ignored (the free functions
+   of bincode 1.3 use `allow_trailing_bytes`).  [None] is a decode error -- and, formally, also a
+   decoded value that does not have the shape of its schema, which no input produces
+   (SchemaProofs.dec_wt). *)
+Definition decode (bs : bytes) : option msg :=
+  match dec message_ty bs with
+  | Some (v, _) => val_to_msg v
+  | None => None
+  end.
+
+(* stack-safe variants (extracted and run; equal to the above) *)
+Definition encode_fast (m : msg) : option bytes := enc_fast message_ty (msg_to_val m).
+Definition decode_fast (bs : bytes) : option msg :=
+  match dec_fast message_ty bs with
+  | Some (v, _) => val_to_msg v
+  | None => None
+  end.
+
+(* ---- the messages the property speaks about ---------------------------------------------- *)
+
+Definition uuid_ok (u : list N) : Prop := length u = 16%nat /\ Forall (fun x => x < 256) u.
+Definition blob_ok (b : list N) : Prop :=
+  N.of_nat (length b) < 2 ^ 64 /\ Forall (fun x => x < 256) b.
+Definition ip_ok (ip : ipaddr) : Prop :=
+  match ip with
+  | IpV4 o => length o = 4%nat /\ Forall (fun x => x < 256) o
+  | IpV6 o => length o = 16%nat /\ Forall (fun x => x < 256) o
+  end.
+
+(* [m] is a Rust value (strings: any bytes; the real type additionally guarantees UTF-8) *)
+Definition wf_msg (m : msg) : Prop :=
+  match m with
+  | MEntitySpawn id | MEntityDelete id => uuid_ok id
+  | MEntityParented a b => uuid_ok a /\ uuid_ok b
+  | MComponentUpdated id n d => uuid_ok id /\ blob_ok n /\ blob_ok d
+  | MStandardMaterialUpdated id d => uuid_ok id /\ blob_ok d
+  | MMeshUpdated id u | MImageUpdated id u | MAudioUpdated id u => uuid_ok id /\ blob_ok u
+  | MNewHost ip p w t => ip_ok ip /\ p < 2 ^ 16 /\ w < 2 ^ 16 /\ t < 2 ^ 64
+  | MPromoteToHost | MRequestInitialSync | MFinishedInitialSync => True
+  end.
